@@ -455,6 +455,10 @@ pub fn writers(a: &Args, o: &mut Obs) {
         let spec = gen_wspec(&mut r, wdepth);
         let room = spec.room();
         let nops = 1 + r.below(6);
+        let path = r.below(3);
+        // a request near usize::MAX must panic; on growable targets reached through the default
+        // put_bytes it would instead grow until allocation fails (abort class, not issued)
+        let mut huge_ok = room.is_some() || matches!(spec, WSpec::Vec(..)) || (matches!(spec, WSpec::BM(..)) && path == 0);
         let mut ops = Vec::new();
         let mut used = 0usize;
         for _ in 0..nops {
@@ -469,7 +473,13 @@ pub fn writers(a: &Args, o: &mut Obs) {
             };
             let op = match r.below(10) {
                 0 | 1 => WOp::PutSlice(sz),
-                2 => WOp::PutBytes(r.byte(), sz),
+                2 => {
+                    if huge_ok && r.chance(1, 6) {
+                        WOp::PutBytes(r.byte(), usize::MAX - r.below(40))
+                    } else {
+                        WOp::PutBytes(r.byte(), sz)
+                    }
+                }
                 3..=6 => {
                     // cycle through every put method
                     let ri = (g + ops.len() * 7 + r.below(3)) % nrows;
@@ -480,11 +490,23 @@ pub fn writers(a: &Args, o: &mut Obs) {
                     let mut salt = g as u64;
                     WOp::PutBuf(rd::gen_tree(&mut r, 2, sz.min(40), &mut salt), r.chance(1, 2))
                 }
-                8 if matches!(spec, WSpec::Limit(..)) => WOp::SetLimit(*r.pick(&[0usize, 3, 40, usize::MAX])),
+                8 if matches!(spec, WSpec::Limit(..)) => {
+                    let l = *r.pick(&[0usize, 3, 40, usize::MAX]);
+                    if l > 40 {
+                        huge_ok = false; // the limit no longer bounds a growable inner target
+                    }
+                    WOp::SetLimit(l)
+                }
                 _ => WOp::Check,
             };
             used += match &op {
-                WOp::PutSlice(n) | WOp::PutBytes(_, n) => *n,
+                WOp::PutSlice(n) | WOp::PutBytes(_, n) => {
+                    if *n > (1 << 20) {
+                        0
+                    } else {
+                        *n
+                    }
+                }
                 WOp::Typed(ri, _, nb) => {
                     let w = prows()[*ri].width;
                     if w == 0 {
@@ -499,7 +521,9 @@ pub fn writers(a: &Args, o: &mut Obs) {
             ops.push(op);
         }
         let use_writer = if r.chance(1, 4) { Some(r.below(50)) } else { None };
-        let path = r.below(3);
+        if a.flag("show") {
+            println!("SHOW {case}: target={} spec={:?} room={:?} ops={:?} path={}", spec.shape(), spec, room, ops, PATHS[path]);
+        }
         if c % 89 == 0 {
             o.sample(format!("{case}: target={} room={:?} ops={:?} path={} writer={:?}", spec.shape(), room, ops, PATHS[path], use_writer));
         }
